@@ -44,6 +44,7 @@ Definition ev_ok (d : dir) (ev : event) : Prop :=
   | EvOp o => op_ok d o /\
               match o with
               | OpEditCfg _ c => g_blind c = 0
+              | OpEditProfile l => Forall (fun p => g_blind (snd p) = 0) l
               | OpAdd e => g_blind (e_cfg e) = 0
               | _ => True
               end
@@ -61,7 +62,8 @@ Definition state_ok (d : dir) : Prop := wf_dir (d_ents d) /\ dir_inv d = true /\
 Lemma op_wf d o : wf_dir (d_ents d) -> wf_dir (d_ents (apply_op d o)).
 Proof.
   intros W. unfold wf_dir, apply_op in *. cbn [d_ents].
-  destruct o as [a c|a|a|a k|a c k|a r|e|a].
+  destruct o as [a c|a|a|a k|a c k|a r|e|a|l].
+  9:{ rewrite map_map. erewrite map_ext; [exact W|]. intros e0. destruct (find (fun p => Nat.eqb (fst p) (e_alias e0)) l); reflexivity. }
   - unfold set_cfg. rewrite map_map. erewrite map_ext; [exact W|]. intros e0. destruct (Nat.eqb (e_alias e0) a); reflexivity.
   - unfold touch_cfg. rewrite map_map. erewrite map_ext; [exact W|]. intros e0. destruct (Nat.eqb (e_alias e0) a); reflexivity.
   - rewrite set_file_aliases. exact W.
@@ -81,7 +83,7 @@ Proof.
   intros B [_ OK]. unfold apply_op. cbn [d_ents].
   assert (forall a nf, blind_free (set_file (d_ents d) a nf)) as SF.
   { intros a nf. eapply skel_blind_free; [apply same_skeleton_set_file|exact B]. }
-  destruct o as [a c|a|a|a k|a c k|a r|e|a]; auto.
+  destruct o as [a c|a|a|a k|a c k|a r|e|a|l]; auto.
   - intros e0 He0. unfold set_cfg in He0. apply in_map_iff in He0 as (e1 & <- & He1).
     destruct (Nat.eqb (e_alias e1) a); cbn; [exact OK|apply B; exact He1].
   - intros e0 He0. unfold touch_cfg in He0. apply in_map_iff in He0 as (e1 & <- & He1).
@@ -90,6 +92,9 @@ Proof.
   - destruct (find_ent (d_ents d) (e_alias e)); [exact B|].
     intros e0 He0. apply in_app_or in He0 as [He0|[<-|[]]]; [apply B; exact He0|exact OK].
   - intros e0 He0. apply filter_In in He0 as [He0 _]. apply B. exact He0.
+  - intros e0 He0. apply in_map_iff in He0 as (e1 & <- & He1).
+    destruct (find (fun p => Nat.eqb (fst p) (e_alias e1)) l) as [p|] eqn:Fp; cbn; [|apply B; exact He1].
+    apply find_some in Fp as [Hin _]. rewrite Forall_forall in OK. apply OK. exact Hin.
 Qed.
 
 Lemma step_ok d ev : state_ok d -> ev_ok d ev -> state_ok (step d ev).
